@@ -231,3 +231,32 @@ pub fn run_populations(input: &mut dyn std::io::BufRead, out: &mut dyn Write) {
         out.write_all(b"\n").unwrap();
     }
 }
+
+/// Huge exact-identity forests through the XML codec (WriteUnknown + ReadUnknown), logged by fingerprint only.
+pub fn run_huge(seed: u64, count: usize, out: &mut dyn Write) {
+    std::panic::set_hook(Box::new(|_| {}));
+    let mut rng = StdRng::seed_from_u64(seed);
+    for i in 0..count {
+        let dom = gen::huge_dom(&mut rng, i + seed as usize);
+        let roots: Vec<Ref> = dom.root().children().to_vec();
+        let mut ev = json!({"ep": format!("xmlhuge:{}:{}", seed, i), "op": "xml_fp", "enc": "WriteUnknown", "dec": "ReadUnknown",
+                            "fp_before": crate::pval::forest_fp(&dom, &roots)});
+        match write_xml(&dom, &roots, "WriteUnknown") {
+            Ok(data) => {
+                ev["write"] = json!("ok");
+                ev["bytes"] = json!(data.len());
+                match read_xml(&data, "ReadUnknown") {
+                    Ok(back) => {
+                        ev["read"] = json!("ok");
+                        let kids: Vec<Ref> = back.root().children().to_vec();
+                        ev["fp_after"] = json!(crate::pval::forest_fp(&back, &kids));
+                    }
+                    Err(e) => ev["read"] = json!(outcome_class(&e)),
+                }
+            }
+            Err(e) => ev["write"] = json!(outcome_class(&e)),
+        }
+        serde_json::to_writer(&mut *out, &ev).unwrap();
+        out.write_all(b"\n").unwrap();
+    }
+}
